@@ -85,11 +85,11 @@ theorem wa_frame {s s' : State} (hi : WA s) (hg : s'.gate = s.gate) (hs : s'.slo
 @[simp] theorem loopTop_nl (l : Loc) : lockMic (loopTop l).m = false := by
   unfold loopTop; split <;> rfl
 @[simp] theorem waitStep_nl (l : Loc) : lockMic (waitStep l).m = false := by
-  obtain ⟨k, m, reg, spun, v, t, h⟩ := l
-  cases reg <;> cases spun <;> rfl
+  obtain ⟨k, m, reg, spun, v, t, h, tm⟩ := l
+  cases reg <;> cases spun <;> cases tm <;> rfl
 @[simp] theorem afterPush_nl (l : Loc) (b : Bool) : lockMic (afterPush l b).m = false := by
-  obtain ⟨k, m, reg, spun, v, t, h⟩ := l
-  cases k <;> cases b <;> cases reg <;> cases spun <;> rfl
+  obtain ⟨k, m, reg, spun, v, t, h, tm⟩ := l
+  cases k <;> cases b <;> cases reg <;> cases spun <;> cases tm <;> rfl
 @[simp] theorem afterPop_nl (l : Loc) (x : Option Nat) : lockMic (afterPop l x).m = false := by
   obtain ⟨k, m, reg, spun, v, t, h⟩ := l
   cases k <;> cases x <;> cases reg <;> rfl
@@ -140,6 +140,8 @@ theorem wa_swapFlag {s s' : State} {r : Role} (hi : WA s) (h : stepSwapFlag s r 
   wa_nonlock hi h [stepSwapFlag]
 theorem wa_spin {s s' : State} {r : Role} (hi : WA s) (h : stepSpin s r = some s') : WA s' := by
   wa_nonlock hi h [stepSpin]
+theorem wa_deadline {s s' : State} {r : Role} (hi : WA s) (h : stepDeadline s r = some s') : WA s' := by
+  wa_nonlock hi h [stepDeadline]
 theorem wa_ldClosed {s s' : State} {r : Role} (hi : WA s) (h : stepLdClosed s r = some s') : WA s' := by
   wa_nonlock hi h [stepLdClosed]
 theorem wa_ldDropped {s s' : State} {r : Role} (hi : WA s) (h : stepLdDropped s r = some s') : WA s' := by
